@@ -1294,7 +1294,11 @@ class SyncObj(object):
         if self.__changeClusterIDx is not None:
             return False
 
-        return self.__doChangeCluster(request)
+        if not self.__doChangeCluster(request):
+            return False
+        # The request is appended to the log right after this call
+        self.__changeClusterIDx = self.__getCurrentLogIndex() + 1
+        return True
 
     def __setCodeVersion(self, newVersion):
         self.__enabledCodeVersion = newVersion
